@@ -515,6 +515,11 @@ def run_kani_file(unit, spec, stage_dir, scratch, tier, prop):
     f = os.path.join(wd, name + ".rs")
     open(f, "w").write(text)
     cmd = ["kani", f, "--harness-timeout", f"{spec.get('timeout', 600)}s", "-Z", "unstable-options"]
+    wanted = [h["name"] for h in spec.get("harness", []) if tier_ok(h.get("tier", "quick"), tier)]
+    if len(wanted) < len(spec.get("harness", [])):
+        for w in wanted:
+            cmd += ["--harness", "harness::" + w]
+        cmd += ["--exact"]
     rc, out, err, secs, to = run(cmd, cwd=wd, timeout=spec.get("timeout", 600) * 3 + 300)
     if "error: could not compile" in err or "error[E" in err or (rc != 0 and "Checking harness" not in out):
         raise Undecided(f"kani-file {name}: build failed:\n{(out + err)[-2500:]}")
